@@ -124,13 +124,8 @@ func (h *health) Check(ctx context.Context) bool {
 		if n < len(o.in.spec.Health) {
 			script = o.in.spec.Health[n]
 		}
-		if script >= 2 {
-			select {
-			case <-ctx.Done():
-			case <-s.teardownCh:
-			}
-		}
-		return script == 0 || script == 2
+		h.block(ctx, script)
+		return script == 0 || script == 2 || script == 4
 	}
 	s.mu.Lock()
 	n := o.in.healthN
@@ -144,14 +139,30 @@ func (h *health) Check(ctx context.Context) bool {
 	if dl, ok := ctx.Deadline(); ok {
 		rec.Deadline = time.Until(dl)
 	}
-	rec.Result = script == 0 || script == 2
+	rec.Result = script == 0 || script == 2 || script == 4
 	s.tr.Healths = append(s.tr.Healths, rec)
 	s.mu.Unlock()
-	if script >= 2 {
+	h.block(ctx, script)
+	return rec.Result
+}
+
+// block: script 2/3 answer when the check's context is done; 4/5 ignore the context (it is advisory) and
+// answer after three heartbeat intervals plus a second (long enough for a demotion by another mechanism
+// and a re-acquisition through the 500ms periodic check to happen meanwhile).
+func (h *health) block(ctx context.Context, script int) {
+	s := h.o.s
+	switch script {
+	case 2, 3:
 		select {
 		case <-ctx.Done():
 		case <-s.teardownCh:
 		}
+	case 4, 5:
+		t := time.NewTimer(3*s.plan.H + time.Second)
+		defer t.Stop()
+		select {
+		case <-t.C:
+		case <-s.teardownCh:
+		}
 	}
-	return rec.Result
 }
